@@ -164,6 +164,30 @@ def gen(rng, tier, shard, batch):
                 dtok, itok, ftok = G.fD(c, sc), G.fI(ty, v), G.fD(v, 0)
                 reqs += ["%s * %s %s" % (op, dtok, ftok), "%s * %s %s" % (op, dtok, itok),
                          "%s * %s %s" % (op, ftok, dtok), "%s * %s %s" % (op, itok, dtok)]
+        # integer operands at floor(T / 10^k) +- 2 (T = maxima of the primitive types) where k is exactly the number of
+        # digits the operation scales the integer by: n + q for int.div_rounded(Decimal @ q, n), the Decimal's scale
+        # for + - % < ==, 18 + q for /
+        for v, k in G.type_scaled_thresholds(36):
+            tys = [t for t in OP_INT_TYPES if INT_TYPES[t][0] <= v <= INT_TYPES[t][1]]
+            if not tys or rng.random() < 0.5:
+                continue
+            ty = min(tys, key=lambda t: INT_TYPES[t][1] - INT_TYPES[t][0]) if rng.random() < 0.7 else rng.choice(tys)
+            itok, ftok = G.fI(ty, v), G.fD(v, 0)
+            # div_rounded: n + q == k
+            nq = [(n_, k - n_) for n_ in range(19) if 0 <= k - n_ <= 18]
+            if nq:
+                n_, q_ = rng.choice(nq)
+                dtok = G.fD(rng.choice((1, -1)) * (rng.getrandbits(rng.randrange(1, 100)) + 1), q_)
+                reqs += ["divr * %s %s %d" % (ftok, dtok, n_), "divr * %s %s %d" % (itok, dtok, n_)]
+            if k <= 18:
+                dtok = G.fD(rng.choice((1, -1)) * (rng.getrandbits(rng.randrange(1, 126)) + 1), k)
+                op = rng.choice(("add", "sub", "rem", "cmpall", "csub", "crem", "quant"))
+                reqs += ["%s * %s %s" % (op, ftok, dtok), "%s * %s %s" % (op, itok, dtok),
+                         "%s * %s %s" % (op, dtok, ftok), "%s * %s %s" % (op, dtok, itok)]
+            if 18 <= k <= 36:
+                dtok = G.fD(rng.choice((1, -1)) * (rng.getrandbits(rng.randrange(1, 100)) + 1), k - 18)
+                op = rng.choice(("div", "cdiv"))
+                reqs += ["%s * %s %s" % (op, ftok, dtok), "%s * %s %s" % (op, itok, dtok)]
         # comparison groups at the alignment threshold: i = +-(floor(M / 10^n) + d), Decimal = i * 10^n (+-1) @ n
         for _ in range(8):
             n_ = rng.randrange(1, 19)
